@@ -162,6 +162,30 @@ Arguments side {A}.
 Arguments sideN {A}.
 Arguments alternate {A}.
 
+(* instances that are CONFIGURED differently (another Api / address prefix, i.e. another static environment and
+   address book; another custom module ...): instance i steps with its own function [stepi i].  Still nothing is
+   shared, so each instance's side of any schedule is its solo run under its own configuration. *)
+Section HeteroMachine.
+  Variables St Op Out : Type.
+  Variable stepi : nat -> Op -> St -> Out * St.
+
+  Fixpoint runNh_gen (sg : list (nat * Op)) (ss : nat -> St) : list (nat * (Out * St)) :=
+    match sg with
+    | [] => []
+    | (i, o) :: r => let (x, s') := stepi i o (ss i) in (i, (x, s')) :: runNh_gen r (upd St ss i s')
+    end.
+
+  Lemma runNh_sides sg : forall ss i,
+    sideN i (runNh_gen sg ss) = run_gen St Op Out (stepi i) (sideN i sg) (ss i).
+  Proof.
+    induction sg as [|[j o] sg IH]; intros ss i; [reflexivity|].
+    cbn [runNh_gen]. destruct (stepi j o (ss j)) as [x s'] eqn:E. unfold sideN in *. cbn.
+    destruct (Nat.eqb j i) eqn:J.
+    - apply Nat.eqb_eq in J. subst j. cbn. rewrite E. rewrite IH. unfold upd. rewrite Nat.eqb_refl. reflexivity.
+    - rewrite IH. unfold upd. rewrite Nat.eqb_sym, J. reflexivity.
+  Qed.
+End HeteroMachine.
+
 (* ====================================================================================================
    2. The executor model as such a machine: operation = (block, top-level call), state = chain
    ==================================================================================================== *)
@@ -304,6 +328,10 @@ Definition run_inst (ce : case_env) (ck : list (N * bytes)) : list iop -> inst -
 Definition run2_inst (ce : case_env) (ck : list (N * bytes)) := run2_gen _ _ _ (istep ce ck).
 Definition runN_inst (ce : case_env) (ck : list (N * bytes)) := runN_gen _ _ _ (istep ce ck).
 
+(* every instance with its own static data (address books of its own prefix, its own checksum book) *)
+Definition runNh_inst (cfg : nat -> case_env * list (N * bytes)) :=
+  runNh_gen _ _ _ (fun i => istep (fst (cfg i)) (snd (cfg i))).
+
 Lemma find_code_le_max id cs c : find_code id cs = Some c -> id <= max_id cs.
 Proof.
   induction cs as [|[j d] cs IH]; cbn [find_code]; [discriminate|].
@@ -333,6 +361,10 @@ Qed.
 Lemma inst_independent_N ce ck sg ss k :
   sideN k (runN_inst ce ck sg ss) = run_inst ce ck (sideN k sg) (ss k).
 Proof. apply runN_sides. Qed.
+
+Lemma inst_independent_hetero cfg sg ss k :
+  sideN k (runNh_inst cfg sg ss) = run_inst (fst (cfg k)) (snd (cfg k)) (sideN k sg) (ss k).
+Proof. apply (runNh_sides _ _ _ (fun i => istep (fst (cfg i)) (snd (cfg i)))). Qed.
 
 (* code ids, code infos (creator, checksum), block, responses and states of two fresh instances given the same
    history coincide entry by entry; in particular the ids returned by store_code and the final state *)
